@@ -341,6 +341,7 @@ pub fn registry_of(case: &Case) -> Registry {
     RegFile {
       lang: Lang::Ts,
       items: vec![Item::Filler],
+      text: None,
     },
   );
   Registry {
